@@ -196,10 +196,14 @@ def _expand_call(callee: ast.FunctionDef, call: ast.Call, skip_self: bool, self_
     # call site reads `self._validate_field(...)` again instead of `check(...)`
     reassigned = _assigned_names(callee)
     subst: Dict[str, ast.expr] = {}
+    folded_switch = False
     for p, v in binding:
         called = any(isinstance(c, ast.Call) and isinstance(c.func, ast.Name) and c.func.id == p for c in ast.walk(callee))
         if called and p not in reassigned and _plain_chain(v):
             subst[p] = v
+        elif isinstance(v, ast.Constant) and isinstance(v.value, bool) and p not in reassigned:
+            subst[p] = v            # a mode switch given as a literal: the body is specialised for it (folded below)
+            folded_switch = True
     binding = [(p, v) for p, v in binding if p not in subst]
     locals_ = _assigned_names(callee) | {p for p, _ in binding}
     mapping = {nm: prefix + nm for nm in locals_}
@@ -253,6 +257,8 @@ def _expand_call(callee: ast.FunctionDef, call: ast.Call, skip_self: bool, self_
             new_body.extend(r)
         elif r is not None:
             new_body.append(r)
+    if folded_switch:
+        new_body = _fold_constants(new_body)
     last = callee.body[-1] if callee.body else call
     tail_assign = ast.copy_location(ast.Assign(targets=[ast.Name(id=ret, ctx=ast.Store())], value=ast.Constant(value=None)), last)
     tail_break = ast.copy_location(ast.Break(), last)
@@ -772,6 +778,21 @@ def _fold_constants(stmts: List[ast.stmt]) -> List[ast.stmt]:
                 return node.body if node.test.value else node.orelse
             return node
 
+        def visit_Compare(self, node):
+            self.generic_visit(node)
+            if len(node.ops) == 1 and isinstance(node.ops[0], (ast.Is, ast.IsNot)) and isinstance(node.left, ast.Name) and isinstance(node.comparators[0], ast.Name):
+                a, b = node.left.id, node.comparators[0].id
+                same = None
+                if F.alias.get(a) == b or F.alias.get(b) == a:
+                    same = True
+                elif (a in F.fresh) != (b in F.fresh) or (a in F.fresh and b in F.fresh and a != b):
+                    same = False        # an object constructed here is not the one that was there before
+                if same is not None:
+                    return ast.copy_location(ast.Constant(value=same if isinstance(node.ops[0], ast.Is) else not same), node)
+            return node
+    F.alias = {}
+    F.fresh = set()
+
     def fold_list(body: List[ast.stmt]) -> List[ast.stmt]:
         out: List[ast.stmt] = []
         consts: Dict[str, ast.Constant] = {}
@@ -790,23 +811,55 @@ def _fold_constants(stmts: List[ast.stmt]) -> List[ast.stmt]:
                 for nm in stored_here & set(consts):
                     if not (isinstance(st, ast.Assign) and len(st.targets) == 1 and isinstance(st.targets[0], ast.Name)):
                         consts.pop(nm, None)
-            st = F().visit(st)
-            for f_ in ("body", "orelse", "finalbody"):
-                sub = getattr(st, f_, None)
-                if isinstance(sub, list) and sub and isinstance(sub[0], ast.stmt) and not isinstance(st, (ast.FunctionDef, ast.AsyncFunctionDef, ast.ClassDef)):
-                    if isinstance(st, (ast.For, ast.While)) and consts:
-                        pass
-                    setattr(st, f_, fold_list(sub) or ([ast.Pass()] if f_ == "body" else []))
+            compound = any(isinstance(getattr(st, f_, None), list) and getattr(st, f_) and isinstance(getattr(st, f_)[0], ast.stmt)
+                           for f_ in ("body", "orelse", "finalbody")) or isinstance(st, ast.Try)
+            if not compound:
+                st = F().visit(st)
+            else:
+                # only the header is folded with what is known here; the bodies are folded statement by statement below
+                for hf in ("test", "iter"):
+                    if isinstance(getattr(st, hf, None), ast.expr):
+                        setattr(st, hf, F().visit(getattr(st, hf)))
             if isinstance(st, ast.If) and isinstance(st.test, ast.Constant) and isinstance(st.test.value, bool):
-                out.extend(st.body if st.test.value else st.orelse)
-                if any(_terminal_any(x) for x in (st.body if st.test.value else st.orelse)[-1:]):
+                live = fold_list(st.body if st.test.value else st.orelse)
+                out.extend(live)
+                if any(_terminal_any(x) for x in live[-1:]):
                     break
                 continue
+            if compound and not isinstance(st, (ast.FunctionDef, ast.AsyncFunctionDef, ast.ClassDef)):
+                before_alias, before_fresh = dict(F.alias), set(F.fresh)
+                for f_ in ("body", "orelse", "finalbody"):
+                    sub = getattr(st, f_, None)
+                    if isinstance(sub, list) and sub and isinstance(sub[0], ast.stmt):
+                        F.alias, F.fresh = dict(before_alias), set(before_fresh)
+                        setattr(st, f_, fold_list(sub) or ([ast.Pass()] if f_ == "body" else []))
+                if isinstance(st, ast.Try):
+                    for h_ in st.handlers:
+                        F.alias, F.fresh = dict(before_alias), set(before_fresh)
+                        h_.body = fold_list(h_.body) or [ast.Pass()]
+                F.alias, F.fresh = before_alias, before_fresh
             if isinstance(st, ast.Assign) and len(st.targets) == 1 and isinstance(st.targets[0], ast.Name):
+                tname = st.targets[0].id
                 if isinstance(st.value, ast.Constant) and isinstance(st.value.value, bool):
-                    consts[st.targets[0].id] = st.value
+                    consts[tname] = st.value
                 else:
-                    consts.pop(st.targets[0].id, None)
+                    consts.pop(tname, None)
+                F.alias.pop(tname, None)
+                F.fresh.discard(tname)
+                for k_ in [k_ for k_, v_ in F.alias.items() if v_ == tname]:
+                    F.alias.pop(k_)
+                if isinstance(st.value, ast.Name):
+                    F.alias[tname] = st.value.id
+                elif isinstance(st.value, ast.Call) and isinstance(st.value.func, ast.Name) and st.value.func.id[:1].isupper():
+                    F.fresh.add(tname)
+            else:
+                # a compound statement that stays: what its branches bind is not known afterwards
+                for n_ in ast.walk(st):
+                    if isinstance(n_, ast.Name) and isinstance(n_.ctx, ast.Store):
+                        F.alias.pop(n_.id, None)
+                        F.fresh.discard(n_.id)
+                        for k_ in [k_ for k_, v_ in F.alias.items() if v_ == n_.id]:
+                            F.alias.pop(k_)
             out.append(st)
             if _terminal_any(st):
                 break
@@ -830,8 +883,18 @@ def _split_handlers_by_isinstance(fn: ast.FunctionDef) -> int:
             if any(isinstance(n, ast.Name) and n.id == h.name and isinstance(n.ctx, ast.Store) for b in h.body for n in ast.walk(b)):
                 i += 1
                 continue
+            # the exception under other local names (an inlined helper's parameter): bound once in the handler, to the exception
+            errnames = {h.name}
+            for _ in range(3):
+                for b in h.body:
+                    for n in ast.walk(b):
+                        if isinstance(n, ast.Assign) and len(n.targets) == 1 and isinstance(n.targets[0], ast.Name) and isinstance(n.value, ast.Name) \
+                                and n.value.id in errnames:
+                            tn = n.targets[0].id
+                            if sum(1 for b2 in h.body for m in ast.walk(b2) if isinstance(m, ast.Name) and m.id == tn and isinstance(m.ctx, ast.Store)) == 1:
+                                errnames.add(tn)
             asks = [n for b in h.body for n in ast.walk(b) if isinstance(n, ast.Call) and isinstance(n.func, ast.Name) and n.func.id == "isinstance"
-                    and len(n.args) == 2 and isinstance(n.args[0], ast.Name) and n.args[0].id == h.name and isinstance(n.args[1], (ast.Name, ast.Attribute))]
+                    and len(n.args) == 2 and isinstance(n.args[0], ast.Name) and n.args[0].id in errnames and isinstance(n.args[1], (ast.Name, ast.Attribute))]
             classes = {ast.unparse(n.args[1]) for n in asks}
             if len(classes) != 1 or classes <= {"Exception", "BaseException"}:
                 i += 1
@@ -843,7 +906,7 @@ def _split_handlers_by_isinstance(fn: ast.FunctionDef) -> int:
                     def visit_Call(self, node):
                         self.generic_visit(node)
                         if isinstance(node.func, ast.Name) and node.func.id == "isinstance" and len(node.args) == 2 and isinstance(node.args[0], ast.Name) \
-                                and node.args[0].id == h.name and ast.unparse(node.args[1]) == ast.unparse(cls_expr):
+                                and node.args[0].id in errnames and ast.unparse(node.args[1]) == ast.unparse(cls_expr):
                             return ast.copy_location(ast.Constant(value=value), node)
                         return node
                 return _fold_constants([A().visit(copy.deepcopy(b)) for b in body]) or [ast.Pass()]
@@ -965,6 +1028,54 @@ def _rewrite_functional(fn: ast.FunctionDef) -> int:
                     return ast.copy_location(gen, node)
             return node
     T().visit(fn)
+    # a local bound to a partial / methodcaller object in several places (one per loop), each time used only in the statements
+    # that follow the binding in the same block: every stretch is rewritten with its own binding
+    multi = {}
+    for nm, cnt in assigned.items():
+        if cnt > 1 and nm not in aliases:
+            multi[nm] = []
+
+    def blocks(node):
+        for f_ in ("body", "orelse", "finalbody"):
+            sub = getattr(node, f_, None)
+            if isinstance(sub, list) and sub and isinstance(sub[0], ast.stmt):
+                yield sub
+        if isinstance(node, ast.Try):
+            for h_ in node.handlers:
+                yield h_.body
+    if multi:
+        for node in ast.walk(fn):
+            if isinstance(node, (ast.FunctionDef, ast.Lambda)) and node is not fn:
+                continue
+            for blk in blocks(node):
+                for i_, st in enumerate(blk):
+                    if isinstance(st, ast.Assign) and len(st.targets) == 1 and isinstance(st.targets[0], ast.Name) and st.targets[0].id in multi:
+                        nm = st.targets[0].id
+                        k = _callable_kind(st.value)
+                        j_ = i_ + 1
+                        while j_ < len(blk) and not any(isinstance(m, ast.Name) and m.id == nm and isinstance(m.ctx, ast.Store) for m in ast.walk(blk[j_])):
+                            j_ += 1
+                        multi[nm].append((k, blk, i_ + 1, j_))
+        for nm, segs in multi.items():
+            if len(segs) != assigned[nm] or any(k is None for k, *_ in segs):
+                continue
+            covered = [id(m) for k, blk, a_, b_ in segs for st in blk[a_:b_] for m in ast.walk(st)
+                       if isinstance(m, ast.Name) and m.id == nm and isinstance(m.ctx, ast.Load)]
+            all_loads = [id(m) for m in ast.walk(fn) if isinstance(m, ast.Name) and m.id == nm and isinstance(m.ctx, ast.Load)]
+            if sorted(covered) != sorted(all_loads):
+                continue
+            for k, blk, a_, b_ in segs:
+                class T2(ast.NodeTransformer):
+                    def visit_Call(self, node, k=k, nm=nm):
+                        self.generic_visit(node)
+                        if isinstance(node.func, ast.Name) and node.func.id == nm and not any(isinstance(a, ast.Starred) for a in node.args):
+                            new = _apply_callable(k, list(node.args), list(node.keywords))
+                            if new is not None:
+                                count[0] += 1
+                                return ast.copy_location(new, node)
+                        return node
+                for idx in range(a_, b_):
+                    blk[idx] = T2().visit(blk[idx])
     if count[0]:
         ast.fix_missing_locations(fn)
     return count[0]
